@@ -129,7 +129,7 @@ fn workload(rng: &mut Rng, thorough: bool, astronomical: bool) -> Vec<i64> {
     if astronomical {
         let n = if thorough { 12_000 } else { 1_500 };
         for _ in 0..n {
-            v.push(rng.range(days_from_civil(-1000, 1, 1), days_from_civil(4000, 1, 1)));
+            v.push(rng.range(days_from_civil(1, 1, 1), days_from_civil(3000, 12, 31)));
         }
         for _ in 0..(if thorough { 48 } else { 8 }) {
             v.push(rng.range(MIN_DAY + 1, MAX_DAY));
@@ -243,7 +243,7 @@ pub fn run(rep: &mut Report) {
                     continue;
                 }
             };
-            let far = astronomical && !(-1000..=4000).contains(&y);
+            let far = astronomical && !(1..=3000).contains(&y);
             let era_class = match (o.era.is_some(), far) {
                 (true, false) => "era",
                 (false, false) => "no-era",
